@@ -24,6 +24,20 @@ use serde_json::{Value, json};
 /// contents is preserved and the specification never sees the bulk.
 pub static BIG: AtomicBool = AtomicBool::new(false);
 
+/// Wall-clock second at which the current scenario started. A node whose mtime seconds are
+/// NOW_MARK + k gets the mtime (that second + k): a time slightly ahead of, or just behind, the
+/// clock -- the same absolute time in every replay of the scenario.
+pub static NOW_BASE: std::sync::atomic::AtomicI64 = std::sync::atomic::AtomicI64::new(0);
+pub const NOW_MARK: i64 = 9_000_000_000;
+
+fn real_mtime(mt: (i64, u32)) -> (i64, u32) {
+    if mt.0 >= NOW_MARK - 1_000_000 && mt.0 <= NOW_MARK + 1_000_000 {
+        (NOW_BASE.load(Ordering::SeqCst) + (mt.0 - NOW_MARK), mt.1)
+    } else {
+        mt
+    }
+}
+
 pub fn abstract_content(c: &[u8]) -> Vec<u8> {
     if BIG.load(Ordering::SeqCst) && c.len() > 64 {
         let mut v = (c.len() as u32).to_le_bytes().to_vec();
@@ -158,8 +172,9 @@ pub fn names() -> std::sync::Arc<Names> {
 
 fn chown_by_name(path: &Path, u: &str, g: &str) -> io::Result<()> {
     let n = names();
-    let uid = if u.is_empty() { None } else { n.name_uid.get(u).copied() };
-    let gid = if g.is_empty() { None } else { n.name_gid.get(g).copied() };
+    // "#1234" = a numeric id (one without a name in the passwd / group files, say)
+    let uid = if u.is_empty() { None } else if let Some(x) = u.strip_prefix('#') { x.parse().ok() } else { n.name_uid.get(u).copied() };
+    let gid = if g.is_empty() { None } else if let Some(x) = g.strip_prefix('#') { x.parse().ok() } else { n.name_gid.get(g).copied() };
     if uid.is_none() && gid.is_none() {
         return Ok(());
     }
@@ -215,7 +230,8 @@ pub fn materialize(root: &Path, nodes: &[Node]) -> io::Result<()> {
     for n in &order {
         let path = if n.p.is_empty() { root.to_path_buf() } else { root.join(n.rel_path()) };
         chown_by_name(&path, &n.u, &n.g)?;
-        let ft = FileTime::from_unix_time(n.mt.0, n.mt.1);
+        let mt = real_mtime(n.mt);
+        let ft = FileTime::from_unix_time(mt.0, mt.1);
         match n.k.as_str() {
             "Symlink" => filetime::set_symlink_file_times(&path, ft, ft)?,
             _ => {
